@@ -225,6 +225,11 @@ func agree(typ reflect.Type, raw json.RawMessage, s *jsonschema.Schema, ov map[r
 		// an overridden type that occurs embedded contributes its override's properties instead of
 		// its fields: only presence of the marker property is checked at such a level
 		if et, found := embeddedOverride(typ, ov); found {
+			if et == nil {
+				// the overridden type is flattened into this struct along more than one path: which
+				// of them (if any) is visible follows Go's depth rules, and nothing is checked here
+				return nil
+			}
 			name := overrideName(et)
 			if p := s.Properties["ovp-"+name]; p == nil || p.Title != "marker-"+name {
 				return failf("%s: embedded type %s is overridden through TypeSchemas but its override's properties are not merged into the struct's schema", path, et)
@@ -295,6 +300,45 @@ func agree(typ reflect.Type, raw json.RawMessage, s *jsonschema.Schema, ov map[r
 
 // embeddedOverride finds an overridden type among the structs flattened into t.
 func embeddedOverride(t reflect.Type, ov map[reflect.Type]bool) (reflect.Type, bool) {
+	et, ok := embeddedOverride1(t, ov)
+	if !ok {
+		return nil, false
+	}
+	// An embedded type that is flattened into t along two paths (struct{ *Shadow; *NamedTwo }, both
+	// of which embed Base) is ambiguous: neither Go nor encoding/json sees its fields, and nothing
+	// is expected of its override.
+	n := 0
+	var count func(x reflect.Type)
+	count = func(x reflect.Type) {
+		for i := 0; i < x.NumField(); i++ {
+			sf := x.Field(i)
+			if !tgen.EmbeddedStruct(sf) {
+				continue
+			}
+			tagName, _, _ := strings.Cut(sf.Tag.Get("json"), ",")
+			if sf.Tag.Get("json") == "-" || tgen.ValidTagName(tagName) {
+				continue
+			}
+			e := sf.Type
+			if e.Kind() == reflect.Pointer {
+				e = e.Elem()
+			}
+			if e == et {
+				n++
+			}
+			// (also below other overridden types: Go's visibility rules, which the library's field
+			// enumeration follows, know nothing about overrides)
+			count(e)
+		}
+	}
+	count(t)
+	if n != 1 {
+		return nil, true // found, but ambiguous: nil type
+	}
+	return et, true
+}
+
+func embeddedOverride1(t reflect.Type, ov map[reflect.Type]bool) (reflect.Type, bool) {
 	for i := 0; i < t.NumField(); i++ {
 		sf := t.Field(i)
 		if !sf.Anonymous {
@@ -311,7 +355,7 @@ func embeddedOverride(t reflect.Type, ov map[reflect.Type]bool) (reflect.Type, b
 		if ov[et] {
 			return et, true
 		}
-		if x, ok := embeddedOverride(et, ov); ok {
+		if x, ok := embeddedOverride1(et, ov); ok {
 			return x, true
 		}
 	}
